@@ -21,6 +21,7 @@ type leaf struct {
 	Inner []leaf
 	Pos   token.Pos
 	Const string
+	Res   int // FPARAM: which result of the applied function value
 }
 
 func (l leaf) String() string {
@@ -412,7 +413,7 @@ func (f *flow) callResult(call *ssa.Call, idx int, depth int, seen map[ssa.Value
 		if b, ok := com.Value.(*ssa.Builtin); ok {
 			return []leaf{{Kind: "SAFE", Info: "builtin " + b.Name()}}
 		}
-		if prm, ok := com.Value.(*ssa.Parameter); ok && len(com.Args) == 1 {
+		if prm, ok := com.Value.(*ssa.Parameter); ok && len(com.Args) >= 1 {
 			// a function-typed parameter applied to one argument (escape(x)): resolved at the call sites of the enclosing
 			// function, where the parameter is bound to a known function
 			pidx := -1
@@ -421,7 +422,11 @@ func (f *flow) callResult(call *ssa.Call, idx int, depth int, seen map[ssa.Value
 					pidx = i
 				}
 			}
-			return []leaf{{Kind: "FPARAM", Info: fmt.Sprintf("%s#%s", ssaFuncName(prm.Parent()), prm.Name()), Const: fmt.Sprint(pidx), Inner: f.cl(com.Args[0], depth+1, seen), Pos: call.Pos()}}
+			var inner []leaf
+			for _, a := range com.Args {
+				inner = append(inner, f.cl(a, depth+1, seen)...)
+			}
+			return []leaf{{Kind: "FPARAM", Info: fmt.Sprintf("%s#%s", ssaFuncName(prm.Parent()), prm.Name()), Const: fmt.Sprint(pidx), Inner: inner, Pos: call.Pos(), Res: idx}}
 		}
 		return []leaf{{Kind: "CALL", Info: "dynamic", Pos: call.Pos()}}
 	}
@@ -507,13 +512,14 @@ func (f *flow) applyFuncValue(fv ssa.Value, app leaf) []leaf {
 	if i, ok := passThrough[name]; ok && i == 0 {
 		return app.Inner
 	}
-	// in-module function (or literal) of one parameter: its returns with the parameter replaced by the argument
-	if fn.Blocks != nil && len(fn.Params) == 1 {
+	// a function literal (or small unexported function): its returns (for the result that is used) with its parameters
+	// replaced by the arguments
+	if fn.Blocks != nil && (fn.Object() == nil || !fn.Object().Exported()) {
 		var out []leaf
 		for _, b := range fn.Blocks {
 			for _, ins := range b.Instrs {
-				if ret, ok := ins.(*ssa.Return); ok && len(ret.Results) == 1 {
-					for _, rl := range f.classify(ret.Results[0]) {
+				if ret, ok := ins.(*ssa.Return); ok && app.Res < len(ret.Results) {
+					for _, rl := range f.classify(ret.Results[app.Res]) {
 						out = append(out, substLeaf(rl, ssaFuncName(fn)+"#", app.Inner)...)
 					}
 				}
@@ -521,7 +527,8 @@ func (f *flow) applyFuncValue(fv ssa.Value, app leaf) []leaf {
 		}
 		return out
 	}
-	return []leaf{{Kind: "CALL", Info: name + "#0", Pos: app.Pos}}
+	// a named function: the call itself, to be judged by name (safehtml.SanitizeCSS#0 …)
+	return []leaf{{Kind: "CALL", Info: fmt.Sprintf("%s#%d", name, app.Res), Inner: app.Inner, Pos: app.Pos}}
 }
 
 // substLeaf replaces PARAM leaves of the function with the given name prefix by repl.
